@@ -164,14 +164,22 @@ def run(F, R, tier):
     ok = False
     det = ""
     for m in H.walk(b):
-        if m.get("k") == "match" and not H.is_try(m) and H.render(m["scrut"]) == "vm.pop_filter_frame()" and any(
+        if m.get("k") == "match" and not H.is_try(m) and H.strip(m["scrut"]).get("k") == "mcall" and H.strip(m["scrut"])["m"] == "pop_filter_frame" and any(
                 x is wr[0] for a in m["arms"] for x in H.walk(a["body"])) if wr else False:
             arms = {H.render_pat(a["pat"]): a for a in m["arms"]}
             det = str(sorted(arms))
             t = arms.get("v1::Ok(true)")
             f_ = arms.get("v1::Ok(false)")
+            # `if let Some(out) = <pcap_out, possibly borrowed> { out.write_all(pkt) }`
+            through_out = False
+            if t is not None:
+                for y in H.walk(t["body"]):
+                    c_ = y.get("c") if y.get("k") == "if" else None
+                    if c_ is not None and c_.get("k") == "let" and H.render(H.strip(c_["init"])) == "pcap_out":
+                        outs = [z["id"] for z in H.walk(c_["pat"]) if z.get("k") == "bind"]
+                        through_out = H.local_id(H.strip(wr[0]["recv"])) in outs and any(x is wr[0] for x in H.walk(y["t"]))
             ok = t is not None and any(x is wr[0] for x in H.walk(t["body"])) and f_ is not None and H.render(f_["body"]) == "" and \
-                "if let v1::Some(out) = &pcap_out" in H.render(t["body"]) and H.render(wr[0]["recv"]) == "out" and H.render(wr[0]["args"]) == "pkt.clone()"
+                through_out and H.render(H.strip(wr[0]["args"][0])) == "pkt"
     R.ob("write-iff-selected", "the packet is written exactly in the Ok(true) arm, through pcap_out", ok and len(wr) == 1, det, F.loc(rf))
     # ---- (d) -s ----------------------------------------------------------------------------------------------------------------------
     lets = [x for x in H.walk(b) if x.get("k") == "let" and x.get("pat", {}).get("name") == "pcap_out"]
